@@ -89,6 +89,10 @@ func (e *Exec) loadPtr(fr *frame, st *State, p Val, t types.Type, pos token.Pos)
 	if g, ok := e.globalByRef[p.T]; ok && e.constGlobal(g) {
 		return e.constGlobalVal(g, t)
 	}
+	if cl, ok := e.boxClosures[p.T]; ok && cl != nil {
+		// a captured local variable holding a function literal (assigned once)
+		return Val{Clo: cl, S: sInt, GoT: t}
+	}
 	e.oblige(fr, st, "nilptr", "nil pointer dereference", pos, not(eq(p.T, "0")))
 	s := e.ctx.sortOf(t)
 	switch {
@@ -110,6 +114,15 @@ func (e *Exec) storePtr(fr *frame, st *State, p Val, t types.Type, v Val, pos to
 	if p.Addr != nil {
 		e.storeAddr(fr, st, p.Addr, v, pos)
 		return
+	}
+	if _, isSig := t.Underlying().(*types.Signature); isSig {
+		if prev, seen := e.boxClosures[p.T]; seen && prev != nil {
+			e.boxClosures[p.T] = nil // assigned more than once: not tracked
+		} else if !seen && v.Clo != nil {
+			e.boxClosures[p.T] = v.Clo
+		} else {
+			e.boxClosures[p.T] = nil
+		}
 	}
 	e.oblige(fr, st, "nilptr", "nil pointer dereference", pos, not(eq(p.T, "0")))
 	v = e.termOf(st, v, t)
